@@ -189,6 +189,19 @@ pub fn check(c: &Case) -> Verdict {
     // deleted records): only the final content counts
     plan.ldb_history = c.extras.first().map(|e| e.at & 1 == 1).unwrap_or(false);
     plan.ldb_small_buffer = c.extras.first().map(|e| e.at & 2 == 2).unwrap_or(false);
+    // a tenth of the indexes hold thousands of header-only records beyond the tip (headers-first sync: a node knows
+    // far more headers than blocks), so that the block records spread over several thousand keys
+    if c.extras.first().map(|e| e.at % 10 == 3).unwrap_or(false) {
+        let proto = built.blocks[n - 1].1.clone();
+        for k in 0..4300u32 {
+            let mut b = proto.clone();
+            b.nonce = b.nonce.wrapping_add(0x10_0000 + k);
+            b.version = 2;
+            let mut r = rec_for(&b, tip + 1 + k as u64, VALID_TREE);
+            r.ntx = 0;
+            plan.recs.push(r);
+        }
+    }
     let w = infra!(World::create("c04", &mut plan));
     let mut o = RunOpts::new(built.coin, c.cb);
     // defect prediction (D7): greatest key among the data-bearing records of a height wins
